@@ -5,5 +5,5 @@ WT=$(mktemp -d /tmp/rt_XXXXXX); rmdir "$WT"
 git -C /repo worktree add -q "$WT" HEAD || exit 2
 cp /repo/pyyeti/rainflow/*.so "$WT/pyyeti/rainflow/" 2>/dev/null
 git -C "$WT" revert --no-commit "$C" >/dev/null 2>&1 || { echo "REVERT FAILED"; git -C /repo worktree remove --force "$WT"; exit 2; }
-cd /verif && PYYETI_REPO="$WT" ./check "$P" 2>&1 | grep -v "RuntimeWarning\|warnings.warn" | grep "VIOLATION\|KNOWN\|INFRA\|seed=" | head -6
+cd "$(dirname "$0")/.." && PYYETI_REPO="$WT" ./check "$P" 2>&1 | grep -v "RuntimeWarning\|warnings.warn" | grep "VIOLATION\|KNOWN\|INFRA\|seed=" | head -6
 git -C /repo worktree remove --force "$WT"; git -C /repo worktree prune
